@@ -8,7 +8,7 @@ From Coq Require Import NArith Bool List.
 Import ListNotations.
 From XetModel Require Import Base.Codec Gen.CrashFacts Model.Merkle Model.Shard Model.Crash Proofs.CrashProofs Proofs.CrashHistoryProofs.
 From XetModel Require Import Proofs.CodecProofs Proofs.ShardWholeProofs Proofs.ShardDedupWholeProofs Proofs.MergeProofs Proofs.MergeAllProofs.
-From XetModel Require Import Proofs.ConsolidateWholeProofs.
+From XetModel Require Import Proofs.UnionWfProofs Proofs.ConsolidateWholeProofs Proofs.ShardNameProofs Proofs.ConsolidateSerializedProofs.
 Open Scope N_scope.
 
 (* after any prefix of the effects of a safe plan, every file under a final name is complete and consistent with its
@@ -124,6 +124,19 @@ Theorem C19_whole_consolidation_plan_is_safe : forall (R : Type) (final : fname 
   Consistent final good f -> InDir final f shards -> NoDup (map fst shards) -> (forall t, In t temps -> final t = false) ->
   SafePlan R final good recs f pl.
 Proof. exact consolidate_plan_safe. Qed.
+(* ... instantiated with the real readers: a directory of serialized shards whose groups merge without meeting a K2 pair and
+   within the size bounds (SerializedGroups: every group is made of serializations of well-formed shards with StepsFit), names
+   being content hashes without collisions.  The merged shard's name needs no premise: every shard name matches the pattern
+   the readers look for (C19_shard_name_is_final) *)
+Theorem C19_shard_name_is_final : forall c, is_shard_final (shard_name c) = true.
+Proof. exact shard_name_is_final. Qed.
+Theorem C19_consolidating_a_directory_of_serialized_shards_is_safe : forall fuel target shards temps finished pl fin f,
+  (forall c c', shard_name c = shard_name c' -> c = c') ->
+  consolidate fuel target shards temps finished = Some (pl, fin) -> SerializedGroups (groups_of fuel target shards) ->
+  Consistent is_shard_final (fun p c => p = shard_name c) f -> InDir is_shard_final f shards -> NoDup (map fst shards) ->
+  (forall t, In t temps -> is_shard_final t = false) ->
+  SafePlan skey is_shard_final (fun p c => p = shard_name c) shard_recs f pl.
+Proof. exact consolidate_serialized_directory_safe. Qed.
 Example C19_whole_plan_example :
   exists m pl fin, consolidate 3 1073741824 cw_dir [cw_t] [] = Some (pl, fin) /\
     pl = [PWrite cw_t (shard_name m) [m]; PUnlink (shard_name cw_A); PUnlink (shard_name cw_B)] /\
@@ -138,3 +151,5 @@ Print Assumptions C19_any_history_of_interrupted_operations.
 Print Assumptions C19_consolidating_two_shards_is_safe.
 Print Assumptions C19_consolidating_a_group_is_safe.
 Print Assumptions C19_whole_consolidation_plan_is_safe.
+Print Assumptions C19_consolidating_a_directory_of_serialized_shards_is_safe.
+Print Assumptions C19_shard_name_is_final.
